@@ -70,6 +70,9 @@ Definition acc_ok (ext balign : nat -> Z) (a : access) : bool :=
 
 Definition all_ok (ext balign : nat -> Z) (l : list access) : bool := forallb (acc_ok ext balign) l.
 
+(* the property checker used by the driver on access lists (C06.v: check_C06_sound) *)
+Definition check_C06 (ext balign : nat -> Z) (l : list access) : bool := all_ok ext balign l.
+
 Fixpoint first_bad (ext balign : nat -> Z) (l : list access) : option access :=
   match l with
   | [] => None
